@@ -248,6 +248,8 @@ pub fn factor_vec<F: ark_ff::Field>(pat: &str, n: usize, vals: &mut dyn Vals<F>,
                 "hi1" => i >= n / 2,
                 "q1" | "r1cs" => i < (n / 4).max(1),
                 "alt1" => i % 2 == 0,
+                // the two ends of each half are one, the interior is not
+                "ends1" => i == 0 || i + 1 == n / 2 || i == n / 2 || i + 1 == n,
                 _ => false,
             };
             if one { F::one() } else if let Some(s) = shared { s } else { vals.fresh(kind) }
@@ -277,6 +279,12 @@ pub fn c10_cases(thorough: bool) -> Vec<IppCase> {
     // factor vectors that are one on part of the positions only
     for (k, gp, hp) in [(2usize, "lo1", "sym"), (2, "hi1", "lo1"), (3, "q1", "hi1"), (3, "r1cs", "sym"), (2, "r1cs", "r1cs"), (3, "alt1", "q1"), (1, "lo1", "hi1"), (0, "sym", "unit"), (0, "unit", "sym")] {
         v.push(IppCase { name: format!("honest_k{}_factors_{}_{}", k, gp, hp), k, g_factors: gp.into(), h_factors: hp.into(), a_pat: "s".into(), b_pat: "s".into(), mode: "honest".into() });
+    }
+    v.push(IppCase { name: "honest_k3_factors_ends1_sym".into(), k: 3, g_factors: "ends1".into(), h_factors: "sym".into(), a_pat: "s".into(), b_pat: "s".into(), mode: "honest".into() });
+    v.push(IppCase { name: "honest_k4_factors_sym_ends1".into(), k: 4, g_factors: "sym".into(), h_factors: "ends1".into(), a_pat: "s".into(), b_pat: "s".into(), mode: "honest".into() });
+    // exactly one of the two cross terms of a round vanishes (no round point is the identity)
+    for (k, ap, bp) in [(1usize, "0s", "s"), (1, "s0", "s"), (1, "s", "0s"), (2, "00ss", "s"), (2, "s", "ss00"), (2, "s", "s0s0"), (3, "s", "0s")] {
+        v.push(IppCase { name: format!("honest_k{}_one_cross_term_zero_a{}_b{}", k, ap, bp), k, g_factors: "sym".into(), h_factors: "sym".into(), a_pat: ap.into(), b_pat: bp.into(), mode: "honest".into() });
     }
     v.push(IppCase { name: "adversarial_k2_factors_lo1_hi1".into(), k: 2, g_factors: "lo1".into(), h_factors: "hi1".into(), a_pat: "s".into(), b_pat: "s".into(), mode: "adversarial".into() });
     v.push(IppCase { name: "degenerate_k2_L_identity".into(), k: 2, g_factors: "sym".into(), h_factors: "sym".into(), a_pat: "00ss".into(), b_pat: "ss00".into(), mode: "degenerate".into() });
